@@ -32,6 +32,7 @@ pub struct GraphStats {
     pub max_states_per_offset: u64,
     pub finish_probes: u64,
     pub max_lag_seen: usize,
+    pub not_closed: bool,
 }
 
 struct Node {
@@ -149,9 +150,15 @@ pub fn explore_from(ctx: &Ctx, x: &[u8], opts: &Opts, mode: &Mode, label: &str, 
         q.push_back(0);
         *per_offset.entry(off).or_default() += 1;
     }
+    let found = std::cell::Cell::new(0u32);
     let viol = |hist: &[u32], extra: &[SOp], expected: String, h: &StreamH, last: &OpObs| {
+        found.set(found.get() + 1);
         ctx.violation(&case_of(x, opts, hist, extra), &format!("{}: {}", label, expected), &obs_stream(h, last), None);
     };
+    // the graph of a correct decoder is small (a handful of states per offset); a decoder whose state keeps changing
+    // without consuming input would make it infinite, so the exploration of one input stops after its first
+    // violations or when it exceeds a generous size, and reports that it did not close
+    let node_cap = 400 * (n + 2) + 2000;
     // probe helper: finish on a re-executed copy
     let finish_probe = |hist: &[u32]| -> (OpObs, Vec<u8>, StreamH) {
         let (mut h, _, _) = replay(x, opts, hist);
@@ -160,6 +167,16 @@ pub fn explore_from(ctx: &Ctx, x: &[u8], opts: &Opts, mode: &Mode, label: &str, 
         (r, out, h)
     };
     while let Some(ni) = q.pop_front() {
+        if found.get() >= 3 {
+            break;
+        }
+        if nodes.len() > node_cap {
+            gs.not_closed = true;
+            ctx.capped.store(true, Ordering::SeqCst);
+            ctx.add_extra_count("graphs_not_closed_within_node_cap", 1);
+            eprintln!("[{}] state graph for '{}' exceeds {} nodes: exploration of this input stopped (not closed)", ctx.prop, label, node_cap);
+            break;
+        }
         let hist = nodes[ni].hist.clone();
         let offset = nodes[ni].offset;
         let failed = nodes[ni].failed;
